@@ -108,6 +108,7 @@ func (k Kind) isUint() bool  { return k >= KUint && k <= KUint64 }
 func (k Kind) isFloat() bool { return k == KFloat32 || k == KFloat64 }
 func (k Kind) isStr() bool   { return k == KString || k == KJSONNumber }
 func (k Kind) scalar() bool  { return k <= KJSONNumber }
+func (k Kind) Scalar() bool  { return k.scalar() }
 
 type Node struct {
 	T     *Type
